@@ -428,18 +428,18 @@ Definition pm_join_visible (u : list pm_entry) (o : pm_obj) : bool :=
 
 (* ---------------------------------------------------------------- the statement's reading of "permitted" *)
 (* some entry matches the required permission and, when that entry carries a filter, the filter is true *)
-Definition pm_entry_admits (perm : pm_str) (sv : option pm_obj) (o : pm_obj) (e : pm_entry) : bool :=
+Definition pm_entry_allows (perm : pm_str) (sv : option pm_obj) (o : pm_obj) (e : pm_entry) : bool :=
   pm_match (pm_lower (pe_perm e)) (pm_lower perm)
   && match pe_filter e with None => true | Some f => pm_is_t (pm_eval [] sv f o) end.
 (* [sv] = None: the filter evaluated on the object alone, as the statement reads *)
-Definition pm_spec_admit_sv (u : list pm_entry) (perm : pm_str) (sv : option pm_obj) (o : pm_obj) : bool :=
-  existsb (pm_entry_admits perm sv o) u.
-Definition pm_spec_admit (u : list pm_entry) (perm : pm_str) (o : pm_obj) : bool :=
-  pm_spec_admit_sv u perm None o.
+Definition pm_spec_allow_sv (u : list pm_entry) (perm : pm_str) (sv : option pm_obj) (o : pm_obj) : bool :=
+  existsb (pm_entry_allows perm sv o) u.
+Definition pm_spec_allow (u : list pm_entry) (perm : pm_str) (o : pm_obj) : bool :=
+  pm_spec_allow_sv u perm None o.
 (* tolerant reading used to CLASSIFY the known finding stale-service-variable: the filter is true with `service`
    bound to some service of the inventory *)
-Definition pm_spec_admit_any (u : list pm_entry) (perm : pm_str) (inv : list pm_obj) (o : pm_obj) : bool :=
-  existsb (fun sv => pm_spec_admit_sv u perm sv o) (None :: map Some (filter pm_is_service inv)).
+Definition pm_spec_allow_any (u : list pm_entry) (perm : pm_str) (inv : list pm_obj) (o : pm_obj) : bool :=
+  existsb (fun sv => pm_spec_allow_sv u perm sv o) (None :: map Some (filter pm_is_service inv)).
 
 (* signature of the finding: a QueryDescription over hosts AND services (the actions) and a service addressed
    by name - only then can a host be evaluated in a frame that still holds a service *)
